@@ -1,7 +1,8 @@
 """C03 - middleware, hooks and responder run in the documented stack order, once each; ASGI lifespan order."""
 PROP = 'C03'
-LEAN_MODULES = ['FalconModel.PipelineProofs', 'FalconModel.PipelineSpec', 'FalconModel.PipelineErrProofs', 'FalconModel.HooksLifespanProofs']
-DRIVERS = ['pldriver', 'hkdriver']
+LEAN_MODULES = ['FalconModel.PipelineProofs', 'FalconModel.PipelineSpec', 'FalconModel.PipelineErrProofs', 'FalconModel.HooksLifespanProofs',
+                'FalconModel.PipelineHooksProofs']
+DRIVERS = ['pldriver', 'hkdriver', 'phdriver']
 THEOREMS = [
     # falcon/app.py + falcon/asgi/app.py __call__, falcon/app_helpers.py prepare_middleware (model Pl.run)
     'Pl.respLoop_idx', 'Pl.reqIndep_noResp', 'Pl.rsrcLoop_noResp', 'Pl.reqDep_noResp', 'Pl.reqDep_stack', 'Pl.reached_sub',
@@ -23,6 +24,17 @@ THEOREMS = [
     'Hk.runUntil_snoc', 'Hk.wrap_eq_spec', 'Hk.before_outermost_first', 'Hk.after_innermost_first', 'Hk.hook_raise_skips_rest',
     'Hk.startLoop_eq', 'Hk.stopLoop_eq', 'Hk.lifespan_eq_spec', 'Hk.startup_in_order', 'Hk.shutdown_in_reverse',
     'Hk.first_failure_reported_and_stops',
+    # the pipeline with the falcon.before/after-wrapped responder spelled out and resp.complete threaded through every callee and every
+    # error handler (model Ph.run, FalconModel/PipelineHooks.lean): falcon/hooks.py _wrap_with_before/_wrap_with_after inside __call__
+    'Ph.hook_order', 'Ph.hook_called_iff', 'Ph.hook_trace', 'Ph.hook_trace_prefix', 'Ph.responder_called_iff', 'Ph.after_called_iff',
+    'Ph.decorateAll_runSeq', 'Ph.wrapBefore_runSeq', 'Ph.wrapAfter_runSeq', 'Ph.runSeq_append', 'Ph.runSeq_trace', 'Ph.runSeq_exc', 'Ph.cut_getElem', 'Ph.cut_prefix',
+    'Ph.hookSeq_order', 'Ph.slot_subtrace', 'Ph.slot_subtrace_routed', 'Ph.slot_called_iff', 'Ph.hook_complete_inert',
+    'Ph.hooks_refine_pe', 'Ph.tries_flat', 'Ph.afterReq_flat', 'Ph.tryBody2_flat', 'Ph.responderOf_flat', 'Ph.respLoop_flat', 'Ph.reqIndep_flat', 'Ph.reqDep_flat',
+    'Ph.rsrcLoop_flat', 'Ph.handle_flat', 'Ph.firstRaise_net',
+    'Ph.handler_complete_inert', 'Ph.final_complete_eq', 'Ph.tries_cp', 'Ph.respLoop_cp', 'Ph.handle_cp', 'Ph.runSeq_cp',
+    'Ph.escape_iff', 'Ph.net_raise_iff', 'Ph.responder_label', 'Ph.calls_eq_spec', 'Ph.calls_prefix_spec', 'Ph.calls_expand',
+    'Ph.independent_resp_once', 'Ph.dependent_resp_stack', 'Ph.succeeded_iff_nothing_raised', 'Ph.run_flags', 'Ph.FlagsOk_expand',
+    'Ph.handler_called_once_per_raise_at_its_site', 'Ph.WH_cut', 'Ph.WH_expand_block',
 ]
 STATEMENTS = {
     'Pl.run_eq_spec': 'for every stack of components, every assignment of return / complete / raise to every method and to the responder, every routing outcome (route, 405, sink, 404) and both middleware modes, the whole sequence of calls the framework makes - including the (resource, req_succeeded) arguments of every process_response - equals specTrace: request methods top-down until one completes or raises; resource methods only after a route match when nothing completed or raised; the responder only if nothing completed or raised; then process_response bottom-up once each (dependent mode: only the components reached), the success flag true iff nothing raised so far',
@@ -51,32 +63,54 @@ STATEMENTS = {
     'Hk.startup_in_order': 'process_startup calls are a prefix of the registration order of the components defining it',
     'Hk.shutdown_in_reverse': 'process_shutdown calls are a prefix of the reversed registration order',
     'Hk.first_failure_reported_and_stops': 'a failing process_startup yields exactly one lifespan.startup.failed event and no shutdown handler ever runs',
+    'Ph.hook_order': 'the routed responder - the method wrapped by its own decorators and then by the class-level ones, each wrapper being _wrap_with_before / _wrap_with_after of falcon/hooks.py as a higher-order function - behaves, for every value of resp.complete at entry and every action (return / complete / raise any error kind of Pe) of every hook, exactly like making the calls of hookSeq in order until one raises: before hooks outermost->innermost (class-level first), the responder, after hooks innermost->outermost (class-level last); same events, same resp.complete afterwards, same exception with the raising hook as its site',
+    'Ph.hook_called_iff': 'in every run of the routed responder the j-th call of the documented order is made, at position j, iff every call before it in that order returned (marking the response complete counts as returning: hooks never read resp.complete)',
+    'Ph.responder_called_iff': 'the responder is called iff all before hooks (class- and method-level) returned',
+    'Ph.after_called_iff': 'the i-th after hook (innermost first) is called iff all before hooks, the responder and the after hooks inside it returned',
+    'Ph.hook_complete_inert': 'turning every `complete` of a hook stack into `return` does not change which calls are made',
+    'Ph.hooks_refine_pe': 'Ph.run transcribes __call__ + _handle_exception with the hook-wrapped responder in the responder slot and resp.complete as a state variable written by middleware methods, hooks, the responder and application error handlers and read at the five places the code reads it; its trace equals the trace of Pe.run of the flattened configuration (hook-wrapped responder := its net effect: what its first raising part raises, else complete if a part completes, else return) in which the one `responder` event is replaced by the hook sub-trace cut(hookSeq) and the handler invoked for the responder\'s error carries the raising hook as site; every other event and the outcome (status / escaped) are identical - so a hook\'s exception is handled in the same _handle_exception window as the responder\'s and every Pe / Pl theorem applies to stacks with hooks',
+    'Ph.handler_complete_inert': 'whichever application error handlers execute resp.complete = True, the calls, handler invocations and outcome of the run are the same: on both stacks nothing that runs after an except clause of __call__ reads resp.complete (the else block is skipped, the response loop never looks at it)',
+    'Ph.final_complete_eq': 'the final value of resp.complete is true iff some call that was made (middleware method, hook, responder) or some application error handler that was invoked executed resp.complete = True - so the handler\'s flag is recorded, just never consulted',
+    'Ph.escape_iff': 'with hooks: the request escapes iff some call actually made - a hook included - raised an error that has no handler or whose handler raised a plain exception',
+    'Ph.calls_eq_spec': 'with hooks, whenever no exception leaves __call__: the calls into the application (handler invocations and falcon\'s 404/405 responder left out) are Pl.specTrace - the documented discipline - of the flattened configuration with the responder of a matched route replaced by its hook sub-trace',
+    'Ph.calls_prefix_spec': 'and an initial part of that when an exception does leave __call__',
+    'Ph.independent_resp_once': 'independent mode with hooks: unless an exception escapes, every component defining process_response has it called exactly once, in reverse registration order, whatever hooks and responder do',
+    'Ph.dependent_resp_stack': 'dependent mode with hooks: unless an exception escapes, the process_response calls are exactly the components before the first process_request that ran and raised, once each, in reverse order',
+    'Ph.succeeded_iff_nothing_raised': 'with hooks: the req_succeeded argument of a process_response call at any position is true iff no earlier call of the trace raised - a before hook, the responder or an after hook included',
+    'Ph.handler_called_once_per_raise_at_its_site': 'with hooks: the trace is its calls with, right after each call, what _handle_exception invokes for what that call raised - one handler event carrying that error and that very call (hook k, responder, middleware method) as site, nothing if it did not raise or no handler exists',
 }
 TRUSTED = [
     'inspect-based method discovery of falcon.util.get_bound_method / hooks (exercised, not modelled)',
     'the mapping of the harness\'s raising actions to the single `raise_` action of Pl.run in the first correspondence (proved sound for the model side: Pe.run_refines_Pl); the second correspondence (Pe.run) uses the full alphabet',
     'falcon\'s own default error handlers and its 404/405 responders cannot be observed through the public API: the model\'s events for them are not compared, their effect is compared through the final status (and by C04)',
-    'the hook-wrapped responder is one responder action for Pl.run / Pe.run (what its first raising part does, else complete, else return); the hook order itself is tied by Hk.wrap',
+    'in the Pl.run / Pe.run correspondences the hook-wrapped responder is one responder action (what its first raising part does, else complete, else return) - proved sound: that is Ph.flatten, and Ph.hooks_refine_pe relates the two runs; the Ph.run correspondence compares the full trace with every hook event',
+    'final resp.complete is read off the Response object the generated callees received (not observable by a server)',
 ]
 ASSUMPTIONS = [
     'an exception that no handler takes - a BaseException-only raise (not caught by falcon by design), or whatever an error handler raises other than HTTPError/HTTPStatus (falcon documents only these as raisable from handlers) - propagates to the server and ends the sequence: the "once each" part of the property is read as "up to that point" (Pe.run_prefix_Pl, Pe.unhandled_propagates_and_stops)',
-    'error handlers do not set resp.complete and components either return, complete or raise (not complete-then-raise)',
+    'components, hooks and responders either return, complete or raise (not complete-then-raise); error handlers may set resp.complete (Ph.run)',
     'hooks are applied to resource responders (falcon.before/after do not apply to sinks)',
 ]
 RULE = ('stacks of 0..5 middleware components, each implementing any non-empty subset of process_request/process_resource/process_response '
         '(ASGI: plain coroutine names or *_async next to a sync decoy), x independent_middleware in {True, False} x target in '
         '{route, route without the method (405), sink, unrouted (404)} x 0..3 stacked before/after hooks (method- and class-level) x an action per call site '
         'from {return, set resp.complete, raise HTTPError, raise HTTPStatus, raise app error with custom handler, with only the default handler, '
-        'custom handler re-raising HTTPError / HTTPStatus / a plain exception, raise a BaseException-only error (no handler at all)}; enumerated: every stack of <= 3 (quick) / <= 4 (thorough) components (the largest stacks with 4 of the 9 fault kinds) x every '
+        'custom handler re-raising HTTPError / HTTPStatus / a plain exception, raise a BaseException-only error (no handler at all)} x any subset of the four custom error handlers '
+        'executing resp.complete = True before returning / raising; enumerated: every stack of <= 3 (quick) / <= 4 (thorough) components (the largest stacks with 4 of the 9 fault kinds) x every '
         'single-fault placement, and every stack of <= 1 (quick) / <= 2 (thorough) components x every double placement of {complete, HTTPError, handled app error, handler raising}, '
-        'each x both modes x {route, unrouted} (the largest stacks routed only; 4-component stacks alternate between WSGI and ASGI) x WSGI+ASGI; plus random stacks with 0..4 faults; plus ASGI lifespan runs over 0..5 components with any subset '
+        'each x both modes x {route, unrouted} (the largest stacks routed only; 4-component stacks alternate between WSGI and ASGI) x WSGI+ASGI (every third faulty run with completing handlers); '
+        'every stacking of 1..3 (quick) / 1..4 (thorough) before/after hooks x every class-level/method-level split x every single fault on a hook or the responder and every pair of '
+        '{complete, handled app error[, handler raising]} on two of them, around one full component, x both modes x WSGI+ASGI x resource class layouts, half with completing handlers; plus random stacks with 0..4 faults; plus ASGI lifespan runs over 0..5 components with any subset '
         'of process_startup/process_shutdown and a failing one anywhere. non-trivial = at least one middleware/hook/lifespan call was made; '
         'distinct = distinct (stack kind, configuration, action assignment)')
 PARTIAL = ('Proved in Lean: the whole call trace of the model equals the documented discipline (Pl.run_eq_spec) in both middleware modes, the hook order and the lifespan order; '
            'and for the refined model Pe.run (ten actions, handler invocations in the trace, outcome responded(status) | escaped): refinement to Pl.run, one handler call per raise at its site, '
            'continuation of the response loop after handled raises, propagation-and-stop for unhandled ones, the success flag at every process_response position, escape iff. '
-           'Not modelled in Lean: the before/after hooks inside Pe.run (one composite responder action; their order is Hk.wrap), handlers that mark the response complete, '
-           'and what happens after the response loop (body rendering and its own except block: C05). Default-handler invocations are model events that the correspondence can only check through the final status.')
+           'The hooks inside the pipeline and error handlers that mark the response complete are modelled by Ph.run (resp.complete threaded as state through every callee and handler) and proved: '
+           'hook order with called-iff per position (Ph.hook_order, Ph.hook_called_iff), refinement to Pe.run by flattening (Ph.hooks_refine_pe) with the Pe/Pl theorems lifted (discipline, response methods once, success flag, '
+           'one handler call per raise at the hook that raised, escape iff), handler-set resp.complete recorded but never consulted (Ph.handler_complete_inert, Ph.final_complete_eq). '
+           'Not modelled in Lean: what happens after the response loop (body rendering and its own except block: C05); callees that set resp.complete and then raise; hooks on sinks (falcon does not support them). '
+           'Default-handler invocations are model events that the correspondence can only check through the final status.')
 JOBS = {'quick': 12, 'thorough': 16}
 
 RAISES = {'http': 403, 'status': 202, 'app_h': 418, 'app_d': 500, 'app_hh': 409, 'app_hs': 299, 'app_he': None, 'base': None}
@@ -171,10 +205,11 @@ def spec(case):
 
 # ------------------------------------------------------------------ building the real app for a case
 
-def _build(case, trace):
+def _build(case, trace, box=None):
     import falcon
     import falcon.asgi
     asgi = case['stack'] == 'asgi'
+    hcomplete = case.get('hcomplete', ())   # the custom error handlers that execute `resp.complete = True`
 
     class AppH(Exception): pass
     class AppD(Exception): pass
@@ -185,6 +220,8 @@ def _build(case, trace):
 
     def act(a, resp, label):
         trace.append(label)
+        if box is not None:
+            box['resp'] = resp
         if a == 'complete':
             resp.complete = True
         elif a == 'http':
@@ -198,6 +235,10 @@ def _build(case, trace):
 
     def handler_body(name, resp, ex):
         trace.append('h:' + name + '@' + str(ex.args[0]))
+        if box is not None:
+            box['resp'] = resp
+        if name in hcomplete:
+            resp.complete = True
         if name == 'app_h':
             resp.status = 418
         elif name == 'app_hh':
@@ -391,6 +432,33 @@ def _modelx_view(trace, r):
     return ' '.join(out) + ' | ' + ('escaped' if r.escaped else f'responded:{r.status}')
 
 
+def _modelh_line(case):
+    """The case as input of Ph.run (phdriver `runh`): like `runx`, but the routed responder is NOT collapsed - the hooks are listed
+    outermost first with the number of class-level ones - and the error handlers that set resp.complete are named."""
+    t = {'route': 'r', 'nomethod': 'm', 'sink': 's', 'none': 'n'}[case['target']]
+    hooks = case['hooks'] if case['target'] == 'route' else []
+    hs = ','.join(('b' if kind == 'before' else 'a') + LETTER[a] for kind, a in hooks) or '-'
+    hc = ''.join(LETTER[n] for n in CUSTOM if n in case.get('hcomplete', ())) or '-'
+    return (f"runh {int(case['independent'])} {t} {LETTER[case['responder']]} {hc} {case.get('class_hooks', 0) if hooks else 0} {hs} "
+            + ' '.join(','.join(LETTER[c[k]] for k in METHS) for c in case['comps']))
+
+
+def _modelh_view(trace, r, complete):
+    """The real observation in the reply format of `runh`: every call incl. each hook, custom-handler invocations with the site
+    (hook, responder, middleware method) whose error they got; the outcome; the final value of resp.complete."""
+    def site(lbl):
+        p = lbl.split(':')
+        return p[0] if p[0] == 'responder' else p[0] + ':' + p[1]
+    out = []
+    for t in trace:
+        if t.startswith('h:'):
+            name, _, at = t[2:].partition('@')
+            out.append(f'h:{LETTER[name]}@{site(at)}')
+        else:
+            out.append(t)
+    return (' '.join(out) + ' | ' + ('escaped' if r.escaped else f'responded:{r.status}') + ' | complete:' + str(bool(complete)).lower())
+
+
 def _model_view(trace):
     """The real trace in the reply format of pldriver: handler calls dropped, hooks+responder collapsed to `responder`."""
     out = []
@@ -413,10 +481,11 @@ def _hook_line(case):
 ORACLE = 'call trace (incl. process_response arguments and error-handler calls), final status and escape = documented stack discipline'
 
 
-def _execute(ctx, sess, hsess, case, via_testing=False, xsess=None):
+def _execute(ctx, sess, hsess, case, via_testing=False, xsess=None, psess=None):
     from lib_appcall import call_wsgi, call_asgi, call_via_testing, Result
     trace = []
-    app = _build(case, trace)
+    box = {}
+    app = _build(case, trace, box)
     if via_testing and 'base' in [c[k] for c in case['comps'] for k in METHS] + [case['responder']] + [a for _, a in case['hooks']]:
         via_testing = False                 # the testing client's own loop/validator is not made for BaseException-only raises
     try:
@@ -446,6 +515,11 @@ def _execute(ctx, sess, hsess, case, via_testing=False, xsess=None):
     if xsess is not None:
         xsess.case({'case': case, 'via_testing': via_testing})
         xsess.op(_modelx_line(case), _modelx_view(trace, r))
+    if psess is not None:
+        # the full trace - every hook, every handler invocation with its site - and the final resp.complete against Ph.run
+        # (no call recorded = the framework's own 404/405 responder only: nothing could have set resp.complete)
+        psess.case({'case': case, 'via_testing': via_testing})
+        psess.op(_modelh_line(case), _modelh_view(trace, r, box['resp'].complete if 'resp' in box else False))
     if case['hooks'] and case['target'] == 'route' and not exp_esc:
         # the hook part of the trace against Hk.wrap (only when the wrapped responder was reached)
         part = [t for t in trace if t.startswith(('bef:', 'aft:')) or t == 'responder']
@@ -459,7 +533,13 @@ def _execute(ctx, sess, hsess, case, via_testing=False, xsess=None):
     ctx.count(f"components_{len(case['comps'])}")
     nf = sum(1 for c in case['comps'] for k in METHS if c[k] not in (None, 'ret')) + (case['responder'] != 'ret') + sum(1 for _, a in case['hooks'] if a != 'ret')
     ctx.count(f'faults_{min(nf, 4)}{"+" if nf >= 4 else ""}')
+    if case.get('hcomplete'):
+        ctx.count('handlers_setting_complete')
+        if any(t.startswith('h:') and t[2:].partition('@')[0] in case['hcomplete'] for t in trace):
+            ctx.count('handler_set_complete_invoked')
     if case['hooks']:
+        if any(a == 'complete' for _, a in case['hooks']) and any(t.startswith(('bef:', 'aft:')) for t in trace):
+            ctx.count('hook_stack_with_completing_hook_reached')
         ctx.count(f"hooks_{len(case['hooks'])}")
         ctx.count('class_level_hooks_%d_layout_%s' % (min(case.get('class_hooks', 0), 1), case.get('layout', 'flat')))
     if exp_esc:
@@ -503,7 +583,45 @@ def _enumerated(ctx, max_single, max_double):
                                     responder = f
                                 else:
                                     comps[ci][m] = f
-                            yield len(pl), {'stack': stack, 'independent': indep, 'target': target, 'comps': comps, 'hooks': [], 'responder': responder}
+                            case = {'stack': stack, 'independent': indep, 'target': target, 'comps': comps, 'hooks': [], 'responder': responder}
+                            if idx % 3 == 0 and any(f in CUSTOM for _, f in pl):
+                                case['hcomplete'] = list(CUSTOM)      # every third faulty run: the custom error handlers set resp.complete
+                            yield len(pl), case
+
+
+def _enumerated_hooks(ctx, max_hooks):
+    """every stacking of <= max_hooks before/after decorators x every split into class-level / method-level x every single-fault
+    placement on a hook or the responder (+ the fault-free run, + every pair of {complete, handled app error} on two sites), around
+    one middleware component implementing all three methods, x both modes x WSGI+ASGI x handlers that do / do not set resp.complete"""
+    import itertools
+    idx = 0
+    i, k = ctx.shard
+    for n in range(1, max_hooks + 1):
+        for kinds in itertools.product(('before', 'after'), repeat=n):
+            sites = list(range(n)) + ['responder']
+            placements = [()] + [((s, f),) for s in sites for f in FAULTS]
+            placements += [((s1, f1), (s2, f2)) for s1, s2 in itertools.combinations(sites, 2)
+                           for f1 in ('complete', 'app_h') for f2 in ('complete', 'app_h', 'app_he')]
+            for pi, pl in enumerate(placements):
+                for n_class in range(n + 1):
+                    for indep in (True, False):
+                        for stack in ('wsgi', 'asgi'):
+                            idx += 1
+                            if idx % k != i:
+                                continue
+                            hooks = [[kind, 'ret'] for kind in kinds]
+                            responder = 'ret'
+                            for s_, f in pl:
+                                if s_ == 'responder':
+                                    responder = f
+                                else:
+                                    hooks[s_][1] = f
+                            case = {'stack': stack, 'independent': indep, 'target': 'route', 'comps': [{m: 'ret' for m in METHS}],
+                                    'hooks': hooks, 'responder': responder, 'class_hooks': n_class,
+                                    'layout': LAYOUTS[(pi + n_class) % len(LAYOUTS)]}
+                            if (pi + n_class + indep) % 2:
+                                case['hcomplete'] = list(CUSTOM)
+                            yield len(pl), case
 
 
 LAYOUTS = ['flat', 'suffix', 'inherited', 'inherited_suffix', 'grandparent', 'mixin', 'base_decorated', 'split_decorated']
@@ -529,6 +647,8 @@ def _random_case(rnd):
         case['class_hooks'] = rnd.randint(0, len(hooks))
     if target in ('route', 'nomethod') and rnd.random() < 0.6:
         case['layout'] = rnd.choice(LAYOUTS)
+    if rnd.random() < 0.4:
+        case['hcomplete'] = sorted(rnd.sample(CUSTOM, rnd.randint(1, len(CUSTOM))))   # these error handlers set resp.complete = True
     sites = [(ci, m) for ci, c in enumerate(comps) for m in METHS if c[m] is not None] + [('responder', None)] + [('hook', k) for k in range(len(hooks))]
     for (a, b) in rnd.sample(sites, min(len(sites), rnd.choice([0, 1, 1, 2, 2, 3, 4]))):
         f = rnd.choice(FAULTS)
@@ -551,16 +671,23 @@ def _requests(ctx):
     sess = ctx.session('App.__call__ call trace (WSGI+ASGI) = Pl.run', 'pldriver')
     hsess = ctx.session('falcon.before/after wrapped responder = Hk.wrap', 'hkdriver')
     xsess = ctx.session('App.__call__ + _handle_exception: calls, error-handler invocations (with site), final status / escape (WSGI+ASGI) = Pe.run', 'pldriver')
+    psess = ctx.session('App.__call__ with the falcon.before/after-wrapped responder spelled out: every middleware, hook and responder call, '
+                        'error-handler invocations with the site (hook included) whose error they got, handlers that set resp.complete, '
+                        'final status / escape, final resp.complete (WSGI+ASGI) = Ph.run', 'phdriver')
     if not ctx.searching:
         for nf, case in _enumerated(ctx, *((3, 1) if ctx.quick else (4, 2))):
-            _execute(ctx, sess, hsess, case, xsess=xsess)
+            _execute(ctx, sess, hsess, case, xsess=xsess, psess=psess)
             ctx.count(f'enumerated_{nf}_fault')
+        for nf, case in _enumerated_hooks(ctx, 3 if ctx.quick else 4):
+            _execute(ctx, sess, hsess, case, xsess=xsess, psess=psess)
+            ctx.count(f'enumerated_hooks_{nf}_fault')
     for j in range(ctx.n(16000, 100000)):
         case = _random_case(rnd)
-        _execute(ctx, sess, hsess, case, via_testing=(j % 16 == 0), xsess=xsess)
+        _execute(ctx, sess, hsess, case, via_testing=(j % 16 == 0), xsess=xsess, psess=psess)
         ctx.count('random')
     sess.finish()
     xsess.finish()
+    psess.finish()
     hsess.finish()
 
 
@@ -663,7 +790,8 @@ def _lifespan(ctx):
 LEVEL_TEXT = ('Machine-checked proofs (Lean 4) about a transcription of App.__call__ (shared by WSGI and ASGI) - first with one abstract raise (Pl.run), then refined with _handle_exception, '
               'error-handler invocations, exceptions that leave __call__ and the final status (Pe.run, proved to refine Pl.run) - falcon.hooks and the lifespan loop: response methods run exactly once '
               'each, bottom-up, in both middleware modes for every stack and fault placement; request/resource loops are top-down and stop at the first completion or raise; '
-              'before hooks run outermost-first, after hooks innermost-first, a raise skips the rest; startup in order, shutdown in reverse, first failure reported and final. '
+              'before hooks run outermost-first, after hooks innermost-first, a raise skips the rest - also inside the pipeline (Ph.run, proved to refine Pe.run: a hook\'s error is handled in the responder\'s '
+              'except window, resp.complete set by a hook or by an error handler changes nothing downstream); startup in order, shutdown in reverse, first failure reported and final. '
               'The model is tied to falcon/app.py, falcon/asgi/app.py, falcon/app_helpers.py and falcon/hooks.py on every run by a differential correspondence over generated '
               'middleware/hook/responder objects that record the call trace, and an independent oracle written from the property statement decides failing inputs.')
 LEVEL_NOTE = ('Trusted: Lean kernel + standard axioms; the correspondence harness and oracle. The whole-trace equality with the documented discipline is not one theorem (see partial).')
